@@ -394,6 +394,21 @@ func TestVF_C01_Cluster(t *testing.T) {
 				// slow Update calls: a replica that applies late must not serve reads early
 				p.WidenUs = 200 + vfhelp.PickN(t, "widenus2", 1500)
 			}
+			if vfhelp.Pick(t, "restartinread", 1) == 1 {
+				// a replica is replaced by a new incarnation (replaying its log with slow Updates)
+				// between a read's confirmed ReadIndex and its Lookup: inside SyncRead, and between
+				// ReadIndex and ReadLocalNode of the asynchronous path
+				p.RestartInReadPct = 10 + vfhelp.PickN(t, "restartinreadpct", 20)
+				if p.AsyncPct > 50 {
+					p.AsyncPct = 50
+				}
+				if p.WidenUs < 300 {
+					p.WidenUs = 300 + vfhelp.PickN(t, "widenus3", 1200)
+				}
+				p.SlowReadUs = 500 + vfhelp.PickN(t, "slowreadus", 4000)
+				p.Faults = append(p.Faults, Fault{Kind: FStopReplica, A: vfhelp.Pick(t, "sr", 2), B: vfhelp.Pick(t, "srb", 3), AfterMs: 10 + vfhelp.PickN(t, "srafter", 30)},
+					Fault{Kind: FStopReplica, A: vfhelp.Pick(t, "sr2", 2), B: vfhelp.Pick(t, "srb2", 3), AfterMs: 5 + vfhelp.PickN(t, "srafter2", 30)})
+			}
 		},
 		rule: "non-trivial = >= 2 clients completed operations on one key, a read served by a non-leader host and >= 1 fault (partition/power cut/transfer) happened",
 		nontriv: func(res *Result) bool {
